@@ -1,4 +1,5 @@
 import WM.Lemmas.CompoundWriter
+import WM.Lemmas.CompoundSubFile
 /-! C20 (compound files): a compound file exposes byte-identical member files; the sub-streams of a
 `CompoundWriter` give back what was written to them for every buffer size and interleaving. -/
 set_option linter.unusedSimpArgs false
@@ -89,5 +90,38 @@ example : (([Op.create "a", .create "b", .write "a" [1, 2], .write "b" [10, 11, 
       .write "a" [3, 4, 5], .write "a" [6], .write "b" [15]].foldl step ⟨4, [], []⟩).readback)
     = [("a", [1, 2, 3, 4, 5, 6]), ("b", [10, 11, 12, 13, 14, 15])] := by
   rw [compound_writer_streams]; decide
+
+
+/-! ### `SubFile`: the member view of a compound file that is not memory-mapped -/
+
+/-- `read(n)` at a non-negative position returns the next at most `n` bytes **of the member**
+    (never of a neighbouring member) and advances by their number — what an in-memory file over
+    the member bytes does. -/
+theorem subfile_read (parent : Bytes) (s : SubFile) (p : Nat) (hp : s.pos = p) (n : Nat) :
+    ∃ s', s.read parent (some (n : Int)) = some (((s.member parent).drop p).take n, s') ∧
+      s'.offset = s.offset ∧ s'.length = s.length ∧ s'.pos = ((p + min n (s.length - p) : Nat) : Int) :=
+  SubFile.read_spec parent s p hp n
+
+/-- `read()` returns the rest of the member. -/
+theorem subfile_read_all (parent : Bytes) (s : SubFile) (p : Nat) (hp : s.pos = p) :
+    ∃ s', s.read parent none = some ((s.member parent).drop p, s') ∧
+      s'.offset = s.offset ∧ s'.length = s.length ∧ s'.pos = ((max p s.length : Nat) : Int) :=
+  SubFile.read_all_spec parent s p hp
+
+/-- Chunked reading (`while chunk := f.read(n)`), for every chunk size `n > 0`: the concatenation of
+    the chunks is the rest of the member; from position 0, the member itself. -/
+theorem subfile_read_chunks (parent : Bytes) (s : SubFile) (p : Nat) (hp : s.pos = p) (n : Nat) (hn : 0 < n)
+    (hfit : s.offset + s.length ≤ parent.length) :
+    ∃ s', SubFile.readChunks parent (n : Int) s (s.length + 1) = some ((s.member parent).drop p, s') ∧
+      s'.pos = ((max p s.length : Nat) : Int) := by
+  rcases SubFile.readChunks_spec parent n hn (s.length + 1) s p hp hfit (by omega) with ⟨s', h1, _, _, h4⟩
+  exact ⟨s', h1, h4⟩
+
+/-- … composed with `compound_member_bytes`' slices: a `SubFile` on the range the directory gives
+    reads the member that was assembled in. -/
+example : ∃ s', SubFile.readChunks [9, 9, 1, 2, 3, 4, 5, 7, 7] 2 ⟨2, 5, 0⟩ 6 = some ([1, 2, 3, 4, 5], s') ∧ s'.pos = 5 := by
+  rcases subfile_read_chunks [9, 9, 1, 2, 3, 4, 5, 7, 7] ⟨2, 5, 0⟩ 0 rfl 2 (by omega) (by decide) with ⟨s', h1, h2⟩
+  exact ⟨s', h1, h2⟩
+example : (SubFile.mk 2 5 3).read [9, 9, 1, 2, 3, 4, 5, 7, 7] (some 10) = some ([4, 5], ⟨2, 5, 5⟩) := by decide
 
 end WM.C20
